@@ -13,7 +13,8 @@ LEAN_CONE = ['PncModel.Arr', 'PncModel.File', 'PncProofs.ArrLemmas', 'PncProofs.
 LEMMA_FILES = ['PncProofs/ArrLemmas.lean']
 REQUIRED_THEOREMS = ['orth_get', 'orth_shape', 'orth_full_id', 'normInt_lt', 'sliceIndices_lt', 'indices_lt',
                      'int_keeps_unit_axis']
-RULE = ('random files (1-5 dimensions incl. length-1 and unlimited, 1-6 variables of rank 0-4 over different '
+RULE = ('[integers given as python ints or numpy integers; a fixed-width string variable (S8 / U8) along one dimension in a quarter of the cases] ' +
+        'random files (1-5 dimensions incl. length-1 and unlimited, 1-6 variables of rank 0-4 over different '
         'dimension subsets and orders, coordinate variables, masked and unmasked, int/float dtypes, distinct '
         'integer tokens in every cell) x selectors over a random subset of dimensions in random keyword '
         'order: positive/negative ints, slices with None/negative/out-of-range bounds and steps +-1,+-2,3 '
@@ -31,7 +32,8 @@ MIN_NONTRIVIAL = {'quick': 100, 'thorough': 1000}
 def _sel(rng, n, kind=None):
     kind = kind or rng.choice(['int', 'int', 'slice', 'slice', 'slice', 'list'])
     if kind == 'int':
-        return ['i', rng.randint(-n, n - 1) if n else 0]
+        # a python int or a numpy integer (what argmax / where / searchsorted return)
+        return ['i', rng.randint(-n, n - 1) if n else 0] + (['np'] if rng.random() < 0.35 else [])
     if kind == 'slice':
         def b():
             return rng.choice([None, None, rng.randint(-n - 2, n + 2)])
@@ -41,6 +43,13 @@ def _sel(rng, n, kind=None):
 
 
 def _case(rng, malformed=False):
+    c = _case0(rng, malformed)
+    if not malformed and rng.random() < 0.25:
+        c['labels'] = [rng.choice([d[0] for d in c['spec']['dims']]), rng.choice(['S8', 'U8'])]
+    return c
+
+
+def _case0(rng, malformed=False):
     spec = pfile.drop_fill_attrs(rng, pfile.gen_file(rng))
     dl = {d[0]: d[1] for d in spec['dims']}
     names = list(dl)
@@ -112,6 +121,24 @@ def _mixed_case(rng):
     return dict(spec=spec, sels=sels)
 
 
+def _npint_case(rng):
+    """ONE index list next to integers that are numpy integers (argmax / where results), on files whose variables carry
+    the integer axis before and after the list axis (numpy's mixed advanced indexing would move the list axis)"""
+    names = ['t', 'z', 'y', 'x']
+    dl = {n: rng.randint(2, 4) for n in names}
+    dims = [[n, dl[n], n == 't' and rng.random() < 0.3] for n in names]
+    shapes = [['t', 'z', 'y', 'x'], ['z', 'y', 'x'], ['x', 'z'], ['t', 'x'], ['x', 't', 'y'], ['y', 'z']]
+    rng.shuffle(shapes)
+    vs = [pfile._mkvar(rng, 'V%d' % i, vd, dl, i, rng.random() < 0.3) for i, vd in enumerate(shapes[:rng.randint(3, 6)])]
+    spec = dict(dims=dims, vars=vs, attrs=[])
+    ln_ = rng.choice(names)
+    sels = [[ln_, ['l', [rng.randint(-dl[ln_], dl[ln_] - 1) for _ in range(rng.randint(1, 4))]]]]
+    for n in rng.sample([n for n in names if n != ln_], rng.randint(1, 2)):
+        sels.append([n, ['i', rng.randint(-dl[n], dl[n] - 1), 'np']])
+    rng.shuffle(sels)
+    return dict(spec=spec, sels=sels)
+
+
 def _legacy_case(rng):
     """the string front end slice_dim(f, 'dim,start[,stop[,stride]]')"""
     spec = pfile.gen_file(rng)
@@ -140,6 +167,7 @@ def gen(rng, tier):
     n = 400 if tier == 'quick' else 12000
     out = [_case(rng, malformed=(i % 10 == 9)) for i in range(n)]
     out += [_mixed_case(rng) for _ in range(n // 8)]
+    out += [_npint_case(rng) for _ in range(n // 10)]
     out += [_legacy_case(rng) for _ in range(n // 8)]
     out += [_ioapi_case(rng) for _ in range(n // 8)]
     return out
@@ -147,7 +175,7 @@ def gen(rng, tier):
 
 def _py(sel):
     if sel[0] == 'i':
-        return sel[1]
+        return np.int64(sel[1]) if len(sel) > 2 else sel[1]
     if sel[0] == 's':
         return slice(sel[1], sel[2], sel[3])
     return list(sel[1])
@@ -231,12 +259,28 @@ def impl(case):
             return dict(err=type(e).__name__, msg=str(e)[:100])
     f = pfile.build(case['spec'])
     kw = {k: _py(s) for k, s in case['sels']}
+    lab = case.get('labels')
+    if lab:
+        # a variable of fixed-width strings (station names, labels) along one dimension: outside the numeric model,
+        # judged by the oracle alone
+        n = {d[0]: d[1] for d in case['spec']['dims']}[lab[0]]
+        lv = f.createVariable('LABELS', lab[1], (lab[0],))
+        lv[:] = np.array(_labels(n), dtype=lab[1])
     try:
         with lib.pnc_warnings():
             o = f.sliceDimensions(newdims=('POINTS',), **kw)
-        return dict(obs=pfile.observe(o, spec=case['spec']))
+        extra = {}
+        if lab:
+            lo = o.variables.pop('LABELS')
+            extra = dict(labels=[x.decode() if isinstance(x, bytes) else str(x) for x in np.asarray(lo[...]).ravel().tolist()],
+                         labels_dims=list(lo.dimensions), labels_dtype=np.asarray(lo[...]).dtype.str[1:])
+        return dict(obs=pfile.observe(o, spec=case['spec']), **extra)
     except Exception as e:
         return dict(err=type(e).__name__, msg=str(e)[:100])
+
+
+def _labels(n):
+    return ['st%d_%s' % (i, 'abcdefgh'[i % 8] * 3) for i in range(n)]
 
 
 def _tok(sel):
@@ -316,6 +360,14 @@ def oracle(case, res):
             idx[k] = list(range(n))[slice(s[1], s[2], s[3])]
         else:
             idx[k] = [i % n for i in s[1]]
+    lab = case.get('labels')
+    if lab and 'labels' in res and not zipped:
+        # the string variable: the same orthogonal selection, every character kept, the dtype unchanged
+        full = _labels(dl[lab[0]])
+        want = [full[i] for i in idx[lab[0]]] if lab[0] in idx else full
+        if res['labels'] != want or res['labels_dims'] != [lab[0]] or res['labels_dtype'] != lab[1]:
+            return 'string variable LABELS(%s) of type %s: %s %s %s, the selection gives %s' % (
+                lab[0], lab[1], res['labels'], res['labels_dims'], res['labels_dtype'], want)
     for k, n in dl.items():
         want = len(idx[k]) if k in idx else n
         if got['dims'].get(k, (None,))[0] != want:
